@@ -1,6 +1,7 @@
 import FqModel.Proto
 import FqModel.Bits
 import FqModel.Reasm
+import FqModel.Gopacket
 /-! driver for C19 — TCP streams and IPv4 datagrams are reassembled exactly
 
   case line (written by harness/cmd/c19, grammar in kase.go / main.go there):
@@ -39,6 +40,13 @@ import FqModel.Reasm
        captured / cut inside the link header); both worlds see of it what `visiblePayload` says.
        Fixed in /repo and no longer excused: defrag-length (8dc84a5a), fsm-reorder (1ef5f83b), pcapng-shb-section and
        pcapng-section-length (501642c1), tcp-header-cut (e2e770fa).
+    5b. MODEL of gopacket's assembler (`FqModel.Gopacket`, a transliteration of reassembly/tcpassembly.go): the trace
+       also holds the INPUT side — one `A…` record per `AssembleWithContext` call (sequence number, flags, payload,
+       direction, the half connection's `nextSeq` as gopacket passed it to `Accept`, `Accept`'s answer).  The driver
+       feeds these packets to `assembleConn` and compares call by call: the model's `nextSeq` before every packet,
+       the `ReassembledSG` call (or none) that follows every packet, and per connection the calls of the final
+       `FlushAll` (`flushConn`; the order of the connections in the flush is Go map order and is not compared).
+       No excuse for wrap-around here: the model has gopacket's off-by-one `Sequence.Difference`.
     6. `linktable`: the dispatch table dumped from the binary under test must contain `linkToDecodeFn` (every link
        type the generator uses, mapped as the model says); further entries are only counted by the harness.
 -/
@@ -421,6 +429,24 @@ structure Call where
   data : Bytes
   flushed : Bool
 
+/-- one `AssembleWithContext` call as recorded in `Accept` -/
+structure Inp where
+  conn : Nat
+  s2c : Bool
+  syn : Bool
+  fin : Bool
+  rst : Bool
+  seq : Nat
+  nextSeq : Int
+  accepted : Bool
+  startAfter : Bool
+  data : Bytes
+
+inductive TEv
+  | inp (i : Inp)
+  | call (c : Call)
+  | flush
+
 structure ObsSec where
   conns : Array (ODir × ODir) := #[]
   reasm : Array String := #[]
@@ -433,6 +459,7 @@ structure Obs where
   secs : Array ObsSec            -- what fq reported, per section
   traced : String
   traceSecs : Array (Array Call) -- the recorded calls, per section of the traced run
+  traceEvs : Array (Array TEv) := #[]   -- packets handed to the assembler, calls and the flush marker, in order
 
 def parseFacts (w : String) : Option (List (Nat × Nat)) :=
   if w == "B=-" then some []
@@ -488,6 +515,26 @@ def parseCall (k : Case) (flushed : Bool) (w : String) : Option Call :=
     some ⟨c, s2c, st, en, skip, data, flushed⟩
   | _ => none
 
+def parseInp (k : Case) (w : String) : Option Inp :=
+  match w.splitOn "." with
+  | [c, d, fl, seq, ns, af, data] => do
+    if !c.startsWith "A" then none
+    let c ← (c.drop 1).toString.toNat?
+    let s2c ← if d == "c" then some false else if d == "s" then some true else none
+    if fl != "-" && fl.toList.any (fun ch => !(ch == 'S' || ch == 'A' || ch == 'F' || ch == 'R')) then none
+    let seq ← seq.toNat?
+    let ns ← ns.toInt?
+    let (acc, st) ← match af.toList with
+      | [a, b] => do
+        let a ← parseBool01 (String.singleton a)
+        let b ← parseBool01 (String.singleton b)
+        some (a, b)
+      | _ => none
+    let data ← parseTraceData k data
+    if seq ≥ 4294967296 then none
+    some ⟨c, s2c, fl.contains 'S', fl.contains 'F', fl.contains 'R', seq, ns, acc, st, data⟩
+  | _ => none
+
 partial def parseObsBody (k : Case) (ws : List String) (o : Obs) : Option Obs :=
   match ws with
   | [] => none
@@ -505,28 +552,39 @@ partial def parseObsBody (k : Case) (ws : List String) (o : Obs) : Option Obs :=
       let mut flushed := false
       let mut calls : Array Call := #[]
       let mut secs : Array (Array Call) := #[]
+      let mut evs : Array TEv := #[]
+      let mut esecs : Array (Array TEv) := #[]
       for w in rest do
         if w == "flush" then
           if flushed then none
           flushed := true
+          evs := evs.push .flush
         else if w == "N" then
           -- every section is flushed exactly once, at its end
           if !flushed then none
           secs := secs.push calls
+          esecs := esecs.push evs
           calls := #[]
+          evs := #[]
           flushed := false
+        else if w.startsWith "A" then
+          -- no packet reaches the assembler after the flush
+          if flushed then none
+          let i ← parseInp k w
+          evs := evs.push (.inp i)
         else
           let c ← parseCall k flushed w
           calls := calls.push c
+          evs := evs.push (.call c)
       if !flushed then none
-      some { o with traced := (t.drop 2).toString, traceSecs := secs.push calls }
+      some { o with traced := (t.drop 2).toString, traceSecs := secs.push calls, traceEvs := esecs.push evs }
   | _ => none
 
 def parseObs (k : Case) (obs : String) : Option Obs :=
   match words obs with
   | "fq" :: fmt :: facts :: rest => do
     let facts ← parseFacts facts
-    parseObsBody k rest ⟨fmt, facts, #[], "", #[]⟩
+    parseObsBody k rest ⟨fmt, facts, #[], "", #[], #[]⟩
   | _ => none
 
 /-! ### the model of fq's part, run on the recorded calls -/
@@ -561,6 +619,76 @@ def interfaceOK (sent : Bytes) (base : Nat) (chunks : List Call) : Bool :=
       let p := if c.skip > 0 then acc.2 + c.skip.toNat else acc.2
       (acc.1 && c.skip ≥ -1 && c.data == (sent.drop p).take c.data.length && p + c.data.length ≤ sent.length,
        p + c.data.length)) (true, base)).1
+
+/-! ### the model of gopacket's assembler, run on the recorded packets and compared call by call -/
+
+instance : Inhabited (Gopacket.GConn UInt8) := ⟨{}⟩
+
+def showCall (c : SGCall UInt8) : String :=
+  s!"{if c.serverToClient then "s" else "c"}.{if c.start then 1 else 0}{if c.stop then 1 else 0}.{c.skip}.{c.data.length}b"
+
+def sameCall (m : SGCall UInt8) (c : Call) : Bool :=
+  m.serverToClient == c.s2c && m.start == c.start && m.stop == c.stop && m.skip == c.skip && m.data == c.data
+
+/-- replay of one section's trace through `FqModel.Gopacket`: first divergence, if any -/
+def gopacketReplay (evs : Array TEv) : Option String := Id.run do
+  let mut conns : Array (Gopacket.GConn UInt8) := #[]
+  -- the call the model expects next (after a packet), and the calls recorded after the flush per connection
+  let mut pending : Option (Nat × Option (SGCall UInt8)) := none
+  let mut flushed := false
+  let mut flushCalls : Array (List Call) := #[]
+  let mut npk := 0
+  for e in evs do
+    match e with
+    | .inp i =>
+      match pending with
+      | some (_, some m) => return some s!"gopacket-model: packet {npk}: model delivers {showCall m}, gopacket nothing"
+      | _ => pure ()
+      npk := npk + 1
+      -- connections are numbered in the order of `New`: a new one is the next index
+      if i.conn > conns.size then return some s!"gopacket-model: packet {npk}: connection {i.conn} out of order"
+      if i.conn == conns.size then conns := conns.push {}
+      let g := conns[i.conn]!
+      let h := if i.s2c then g.s2c else g.c2s
+      if h.nextSeq != i.nextSeq then
+        return some s!"gopacket-model: packet {npk}: nextSeq model={h.nextSeq} gopacket={i.nextSeq}"
+      -- tcpassembly.go:662: a.start = nextSeq invalid && SYN; fq's Accept leaves it alone
+      if i.startAfter != (i.nextSeq == -1 && i.syn) then
+        return some s!"gopacket-model: packet {npk}: Accept changed *start"
+      let r := Gopacket.assembleConn g i.s2c i.accepted ⟨i.seq, i.syn, i.fin, i.rst, i.data⟩
+      conns := conns.set! i.conn r.1
+      pending := some (i.conn, r.2)
+    | .call c =>
+      if flushed then
+        if c.conn ≥ conns.size then return some s!"gopacket-model: flush call for unknown connection {c.conn}"
+        flushCalls := flushCalls.modify c.conn (c :: ·)
+      else
+        match pending with
+        | some (ci, some m) =>
+          if ci != c.conn || !sameCall m c then
+            return some s!"gopacket-model: packet {npk}: call model={ci}.{showCall m} gopacket={c.conn}.{if c.s2c then "s" else "c"}.{if c.start then 1 else 0}{if c.stop then 1 else 0}.{c.skip}.{c.data.length}b"
+          pending := none
+        | _ => return some s!"gopacket-model: packet {npk}: gopacket delivers a call (skip {c.skip}, {c.data.length} bytes), model nothing"
+    | .flush =>
+      match pending with
+      | some (_, some m) => return some s!"gopacket-model: packet {npk}: model delivers {showCall m}, gopacket nothing"
+      | _ => pure ()
+      pending := none
+      flushed := true
+      flushCalls := Array.replicate conns.size []
+  -- FlushAll: per connection s2c then c2s
+  for ci in [0:conns.size] do
+    let m := (Gopacket.flushConn conns[ci]!).2
+    let got := (flushCalls.getD ci []).reverse
+    if m.length != got.length then
+      return some s!"gopacket-model: flush of connection {ci}: model {m.length} calls, gopacket {got.length}"
+    for (a, b) in m.zip got do
+      if !sameCall a b then
+        return some s!"gopacket-model: flush of connection {ci}: call model={showCall a} gopacket skip {b.skip} {b.data.length}b"
+  for ci in [0:conns.size] do
+    let g := conns[ci]!
+    if g.c2s.fault || g.s2c.fault then return some s!"gopacket-model: connection {ci}: slice index out of range in the model"
+  return none
 
 /-! ### verdict -/
 
@@ -628,7 +756,7 @@ structure SecResult where
   misdecoded : Nat
 
 /-- one flows section: fq's report `o` for it and the calls recorded for it against the section's packets -/
-def stepSection (k : Case) (pkts : List FPkt) (o : ObsSec) (calls : Array Call) : SecResult := Id.run do
+def stepSection (k : Case) (pkts : List FPkt) (o : ObsSec) (calls : Array Call) (tevs : Array TEv) : SecResult := Id.run do
   let r := replay k.conns pkts
   let refF := predicate k o r.evsRef r.done.toList (connOrder r.evsRef)
   let dropped := (r.done.toList.filter (fun d => !d.accepted)).length
@@ -667,6 +795,14 @@ def stepSection (k : Case) (pkts : List FPkt) (o : ObsSec) (calls : Array Call) 
             dv := dv ++ [s!"interface-assumption (exhausts) connection {i} {if s2c then "s2c" else "c2s"}: {delivered} bytes delivered before the first skip, reference [{rf.base},{rf.stop})"]
           if !post.isEmpty != rf.beyondHole then
             dv := dv ++ [s!"interface-assumption (flushes) connection {i} {if s2c then "s2c" else "c2s"}"]
+  -- the transliterated assembler on the recorded packets
+  match gopacketReplay tevs with
+  | some w => dv := dv ++ [w]
+  | none => pure ()
+  -- every segment the fq model hands to the assembler is one recorded packet
+  let npk := (tevs.toList.filter fun e => match e with | .inp _ => true | _ => false).length
+  if npk != r.evsFq.size then
+    dv := dv ++ [s!"gopacket-model: {npk} packets reached the assembler, the fq model hands on {r.evsFq.size}"]
   let modelR := (r.done.toList.filter (·.accepted)).map fun d => blob (datagram d.src d.dst d.id d.proto d.payload)
   if modelR != o.reasm.toList then dv := dv ++ [s!"ipv4_reassembled model has {modelR.length}"]
   return ⟨refF, fqF, dv, dropped, fsmRejected, r.misdecoded⟩
@@ -686,12 +822,12 @@ def stepCap (k : Case) (o : Obs) : String := Id.run do
     -- fq reports ONE section for a file with several: is anything lost or invented when the file is read as
     -- one capture?  (the harness then traced one decoder over all packets)
     if o.secs.size == 1 && o.traceSecs.size == 1 then
-      let r := stepSection k secs.flatten o.secs[0]! o.traceSecs[0]!
+      let r := stepSection k secs.flatten o.secs[0]! o.traceSecs[0]! (o.traceEvs.getD 0 #[])
       refF := refF.merge r.refF
       fqF := fqF.merge r.fqF
   else
     for i in [0:secs.length] do
-      let r := stepSection k secs[i]! o.secs[i]! o.traceSecs[i]!
+      let r := stepSection k secs[i]! o.secs[i]! o.traceSecs[i]! (o.traceEvs.getD i #[])
       let tag := fun (l : List String) => if secs.length == 1 then l else l.map fun w => s!"section {i}: {w}"
       refF := refF.merge { r.refF with propfail := tag r.refF.propfail }
       fqF := fqF.merge { r.fqF with propfail := tag r.fqF.propfail }
